@@ -701,6 +701,16 @@ func (e *executor) exec(line, lean string) string {
 		}
 		if err != nil {
 			branch("mkidx:err")
+			// a sequence whose every token has 1..255 characters must be encodable (C11)
+			enc := len(vals) > 0
+			for _, v := range vals {
+				if c := utf8.RuneCountInString(v); c < 1 || c > 255 {
+					enc = false
+				}
+			}
+			if enc {
+				return "err toolarge ROUNDTRIP-FAIL=refused-an-encodable-sequence" + unknownField(unk)
+			}
 			return "err toolarge" + unknownField(unk)
 		}
 		kind := "na"
